@@ -196,7 +196,12 @@ class UdpClient(object):
 
                     r, w,_ = select.select([self.sock], [self.sock], [], 0)
 
-                    if r:
+                    # read every datagram that has arrived. if only one
+                    # was read per update a burst of datagrams (for example
+                    # after a network delay) would never be caught up with
+                    # while the server sends as often as update is called,
+                    # and every ack would be processed too late
+                    while r:
                         datagram, addr = self.sock.recvfrom(Packet.RECV_SIZE)
                         try:
                             hdr = PacketHeader.from_bytes(False, datagram)
@@ -209,6 +214,8 @@ class UdpClient(object):
 
                         if hdr is not None:
                             self.conn._recv_datagram(hdr, datagram)
+
+                        r, _, _ = select.select([self.sock], [], [], 0)
 
                     t0 = self.conn.clock()
                     if t0 - self.conn.last_send_time > self.conn.send_interval:
